@@ -718,11 +718,15 @@ _process_request_(struct qb_ipcs_connection *c, int32_t ms_timeout)
 		goto cleanup;
 	} else if (size < (ssize_t)sizeof(struct qb_ipc_request_header) ||
 		   hdr->size < (int32_t)sizeof(struct qb_ipc_request_header) ||
-		   hdr->size > size) {
+		   hdr->size > size ||
+		   (uint32_t)hdr->size > c->request.max_msg_size) {
 		/*
 		 * The length the client put into the header is what the
 		 * application is told: never trust it beyond what actually
-		 * arrived.  A client that sends such a message is dropped.
+		 * arrived, nor beyond the maximum negotiated for this
+		 * connection (a ring is rounded up to whole pages and takes
+		 * larger chunks).  A client that sends such a message is
+		 * dropped.
 		 */
 		if (size != 0 && hdr->id != QB_IPC_MSG_DISCONNECT) {
 			qb_util_log(LOG_ERR,
